@@ -112,8 +112,10 @@ CHECKS = {
         category="proof",
         text="Lean theorems: smtp_sink_gets_exactly (on success the server was given exactly the reverse path, the recipients in order "
              "and content from which an RFC 5321 server reconstructs the octets: C05 composed with C03), sendmail_argv_exact, "
-             "sendmail_nonzero_is_error, file_eml_exact, json_escape_lossless, stub_exact_partial + stub_lossy_witness. Partial: file "
-             "system, process spawning and JSON are inputs. Correspondence: the same envelopes and octets through the sync and tokio stub, "
+             "sendmail_nonzero_is_error, file_eml_exact, json_escape_lossless, envelope_file_reads_back (for every envelope an independent reader of the "
+             "JSON object - Spec/EnvelopeJson.lean - applied to the .json file the transport writes finds exactly that envelope; the same reader is applied to "
+             "the real file on every case), stub_exact_partial + stub_lossy_witness. Partial: file "
+             "system and process spawning are inputs; serde_json's escaping is modelled for the characters an accepted address can contain. Correspondence: the same envelopes and octets through the sync and tokio stub, "
              "file(+envelope, read back) and sendmail (fake programs dumping argv and stdin / failing) transports; Transport::send vs "
              "(envelope(), formatted()); every scripted SMTP server behaviour through both the sync and the tokio client.",
         design_ref="DESIGN.md 5 C18",
